@@ -14,7 +14,7 @@ What is proved here (model: `Varpulis/Model/Trend.lean`):
   and every stream (`dp_correct`, `dp_running_correct`); several queries side by side are
   component-wise (`sharing_independent`). This is the oracle the check judges the code with.
 * the code as it is (mirrored by `Hamlet.run`, `GretaImpl.run`, `EngineImpl.run`, tied by
-  correspondence) does **not** have the property: six `_counterexample` theorems with minimal
+  correspondence) does **not** have the property: seven `_counterexample` theorems with minimal
   witnesses (known findings `C25-…`), and `hamlet_partial` for the streams on which
   `HamletAggregator` is right (no event of the query's first type).
 -/
@@ -128,5 +128,35 @@ theorem engine_sharing_counterexample :
   intro h
   have := h [⟨0, false⟩, ⟨1, true⟩] [⟨2, false⟩, ⟨1, true⟩] [0, 1] (by decide) (by decide)
   revert this; decide
+
+/-- `C25-window-ignored`: the engine's reports do not depend on the timestamps at all (`window_ms` is
+never read); `A -> all B .within(1m)` over `A` at 0 s and `B` at 100 s has no trend within 60 s and
+`n = 1` is reported. -/
+theorem window_ignored_counterexample :
+    EngineImpl.run [[⟨0, false⟩, ⟨1, true⟩]] [0, 1] = [(1, 0, 1)] ∧
+    Spec.trendsW [⟨0, false⟩, ⟨1, true⟩] 60 [(0, 0), (1, 100)] = [] := by
+  decide
+
+/-- Inside one window (all events at most `w` apart) the window condition is vacuous: the tie's
+streams (1 s apart, 60 s window) are judged against `Spec.trends`. -/
+theorem window_inside (q : Query) (w : Nat) (evs : List (Ty × Nat))
+    (h : ∀ a ∈ evs, ∀ b ∈ evs, b.2 - a.2 ≤ w) :
+    Spec.trendsW q w evs = (Spec.subseqs evs).filter (fun u => Spec.matchSteps q (u.map (·.1))) :=
+  trendsW_inside q w evs h
+
+/-- **Partial correctness of `HamletAggregator`** (the complement of the guard of
+`C25-hamlet-count`): a query run alone (any sharing threshold ≥ 2, in particular the default) over
+a stream without an event of its first step's type reports nothing — neither incrementally nor
+at `flush()` — and there is indeed no trend. -/
+theorem hamlet_partial (s : Step) (ss : Query) (hq : WF (s :: ss)) (m : Nat) (hm : 2 ≤ m)
+    (evs : List Ty) (h : ∀ t ∈ evs, t ≠ s.ty) :
+    Hamlet.run [s :: ss] m evs = ([], []) ∧ Spec.count (s :: ss) evs = 0 := by
+  refine ⟨Hamlet.run_no_start s ss m hm evs h, ?_⟩
+  rw [Spec.count, trends_length]
+  exact cnt_no_start s ss (adjChain_of_nodup _ hq.2).1 evs h
+
+/-- the premise is satisfiable by a non-trivial stream: `A -> B+ -> C` over `B C B B C` -/
+example : Hamlet.run [[⟨0, false⟩, ⟨1, true⟩, ⟨2, false⟩]] 2 [1, 2, 1, 1, 2] = ([], []) :=
+  (hamlet_partial ⟨0, false⟩ [⟨1, true⟩, ⟨2, false⟩] (by decide) 2 (by decide) [1, 2, 1, 1, 2] (by decide)).1
 
 end Varpulis.Props.C25
